@@ -177,7 +177,7 @@ def run(ctx):
         elif st == "Repeating":
             ck.ob("C11-R2", fn, "tick:tablet-flag-tested", False, detail="time-out while repeating does not test the tablet flag")
         elif st == "Idle":
-            ok = not tr.of("SEND") and not tr.of("SETTIMER")
+            ok = not tr.of("SEND") and not [it for it in tr.of("SETTIMER") if tr.timer_state(it[3]) != "Idle"]      # (Idle written over Idle is no change)
             ck.ob("C11-R2", fn, "timeout-while-idle:nothing", ok)
         else:
             ck.ob("C11-R2", fn, "tick:timer-state-matched", False, detail="TimedOut path does not match on the timer state")
